@@ -13,7 +13,8 @@ cpuset harness (pkg/util/cpuset):
 
 numa harness (pkg/scheduler/plugins/nodenumaresource), one case = one history on one node:
   numa topo <maxRef> <nodeOfCpu>*
-  numa bind <uid> <excl> <k> <cpu>^k <m> (<node> <cpuMilli> <memBytes>)^m
+  numa bind <uid> <kind> <excl> <k> <cpu>^k <m> (<node> <cpuMilli> <memBytes>)^m
+        (kind 0 = pod, 1 = Reservation with the resource spec on itself, 2 = … on spec.template)
         Reserve (resourceManager.Update on the live cache) + PreBind (persist on the object)
         -> `annot <byte>*` (the CPU-set text written)
   numa raw <uid> <assigned> <term> <excl> <hasAnnot> <t> <byte>^t <m> (<node> <cpu> <mem>)^m
@@ -88,8 +89,8 @@ def stepNuma (d : DState) (args : List String) : DState × List String :=
     | _ => bad
   | "bind" :: rest =>
     match ints? rest with
-    | some (uid :: excl :: k :: r1) =>
-      if uid < 0 ∨ excl < 0 ∨ k < 0 then bad else
+    | some (uid :: kind :: excl :: k :: r1) =>
+      if uid < 0 ∨ excl < 0 ∨ k < 0 ∨ kind < 0 ∨ kind > 2 then bad else
       match splitAtLen k.toNat r1 with
       | some (cpusI, m :: r2) =>
         match toNats? cpusI, parseNuma r2 with
@@ -97,7 +98,7 @@ def stepNuma (d : DState) (args : List String) : DState × List String :=
           if numa.length ≠ m.toNat then bad else
           let a : PodAlloc := { uid := uid.toNat, cpus := toSet cpus, excl := excl.toNat, numa := numa }
           let an := persist a
-          let o : Obj := { uid := a.uid, assigned := true, term := false, excl := a.excl, annot := some an }
+          let o : Obj := { uid := a.uid, assigned := true, term := false, excl := persistedExcl kind.toNat a, annot := some an }
           ({ d with live := update d.topo d.live a, objs := putObj o d.objs }, [withSp "annot" (showNats an.text)])
         | _, _ => bad
       | _ => bad
